@@ -158,6 +158,7 @@ type Schema struct {
 	IDMaxLen          int
 	UintIDs           bool // primary keys are big-endian uint64 of small integers
 	Wide              bool // wide fan-out: ids are [a|b] + one of 64 letters (or nothing); transactions have grow/shrink phases
+	LongIDs           bool // primary (and unique secondary) keys start with long stems (hundreds of bytes)
 }
 
 var Schemas = []Schema{
@@ -166,7 +167,11 @@ var Schemas = []Schema{
 	{Name: "c", IDAlphabet: []byte{0x00, 'a', 'b'}, IDMaxLen: 2},
 	{Name: "d", Tags: true, U: true, Pfx: true, LPM: true, IDAlphabet: []byte{0x00, 0x01, 'a', 0xff}, IDMaxLen: 2},
 	{Name: "e", Wide: true, Tags: true, IDAlphabet: wideAlphabet, IDMaxLen: 2},
+	// long keys; no non-unique part index (primaries longer than 256 bytes under a non-unique index are the known finding D9 of C18)
+	{Name: "f", LongIDs: true, U: true, LPM: true, IDAlphabet: []byte{0x00, 'a', 0xff}, IDMaxLen: 2},
 }
+
+var longStems = [][]byte{bytes.Repeat([]byte{'x'}, 255), bytes.Repeat([]byte{'x'}, 256), bytes.Repeat([]byte{'x'}, 700), append(bytes.Repeat([]byte{'x'}, 256), bytes.Repeat([]byte{0x00}, 300)...)}
 
 var wideAlphabet = func() []byte {
 	var a []byte
